@@ -1582,11 +1582,19 @@ func (s *BgpServer) propagateUpdateToNeighbors(rib *table.TableManager, source *
 						return l
 					}()
 				} else {
-					alreadySent := targetPeer.hasPathAlreadyBeenSent(newPath)
-					newPath := s.filterpath(targetPeer, newPath, nil)
+					offered := newPath
+					alreadySent := targetPeer.hasPathAlreadyBeenSent(offered)
+					newPath := s.filterpath(targetPeer, offered, nil)
 					// if the path is not filtered and the path has already been sent or land in the limit, we can send it
 					if newPath == nil {
 						bestList = []*table.Path{}
+						if alreadySent {
+							// the peer holds an earlier version of this path and
+							// must not get the new one: what it holds goes
+							w := filteredPathForPeer(targetPeer, offered).Clone(true)
+							targetPeer.updateRoutes(w)
+							bestList = []*table.Path{w}
+						}
 					} else if alreadySent || targetPeer.getRoutesCount(f, newPath.GetPrefix()) < targetPeer.getAddPathSendMax(f) {
 						bestList = []*table.Path{newPath}
 						if !alreadySent {
